@@ -28,9 +28,8 @@ theorem Ctx0.vm [AddCommMonoid R] [Mul R] [Neg R]
           V.get J = (tensordotBlockwise A B (freeAxes A.ndim xa) xa xb (freeAxes B.ndim xb)).elem K J)
       ∧ (∀ s ∈ (tensordotBlockwise A B (freeAxes A.ndim xa) xa xb (freeAxes B.ndim xb)).sectors,
           s ∈ c.sectors)
-      ∧ (∀ K V, alookup c.blocks K = some V →
-          Arr.blockShape? (permuted A.indices (freeAxes A.ndim xa)
-            ++ permuted B.indices (freeAxes B.ndim xb)) K = some V.shape) := by
+      ∧ List.Forall₂ SizeLe c.indices (permuted A.indices (freeAxes A.ndim xa)
+            ++ permuted B.indices (freeAxes B.ndim xb)) := by
   have hneKb : xb ≠ [] := by
     intro e; have := h.len; rw [e] at this; exact hneK (List.eq_nil_of_length_eq_zero this)
   have hpA := solo_of_free_nil h.nA h.rA hneK hL
@@ -230,20 +229,10 @@ theorem Ctx0.vm [AddCommMonoid R] [Mul R] [Neg R]
       (by simpa using segOf_stored h.vaB hokB gB1 hsb S0 hcR)
     rw [hL]
     simpa [permuted] using h2
-  · -- shapes
-    intro K V hl
-    have hs := Arr.shapesOk_of_validB hcv (K, V) (alookup_mem hl)
-    simp only at hs
-    rw [hci] at hs
-    rw [hL]
-    have : List.Forall₂ SizeLe
-        ((if ((freeAxes B.ndim xb).length != 1) = true then
-          ((dropTo (FuseP.ixM B [xb, freeAxes B.ndim xb] 1) S0).sub.map (·.1)).getD []
-        else [dropTo (FuseP.ixM B [xb, freeAxes B.ndim xb] 1) S0]))
-        (permuted A.indices [] ++ permuted B.indices (freeAxes B.ndim xb)) := by
-      have e : permuted A.indices [] = [] := rfl
-      rw [e, List.nil_append]; exact hleg
-    exact blockShape?_weaken this K _ hs
+  · -- index tables
+    rw [hci, hL]
+    have e : permuted A.indices [] = [] := rfl
+    rw [e, List.nil_append]; exact hleg
 
 end TdotP
 end SymmModel
